@@ -1,0 +1,10 @@
+package snapshots
+
+// VerifPublicationEnded is the argument of the verification hook point
+// "snapshots.publication-ended": the asynchronous publication of a completed
+// checkpoint (snapshot file, cleanup, savepoint artifact) has returned.
+type VerifPublicationEnded struct {
+	ID        uint64
+	Savepoint bool
+	Err       error
+}
